@@ -553,6 +553,13 @@ pub fn judge(word: &[Op]) -> CaseOut {
             Op::RenameRescope(name, sc, n2, _) => Some((name, sc, n2)),
             _ => None,
         };
+        // a reader on a sheet that cannot see the name in its new scope stops resolving whichever spelling it keeps
+        // (the statement's rename clause is about renames that change no value): its text is not compared
+        let loses_sight = matches!(op, Op::RenameRescope(_, _, _, Some(s2)) if *s2 as usize != *p);
+        if loses_sight {
+            out.unspecified += 1;
+            continue;
+        }
         if let Some((name, sc, n2)) = renamed {
             let bound = binds(*p, name) == Some(sc.map(|x| x as usize));
             let exp = if bound && reads(name) { replace_ident(text, name, n2) } else { text.clone() };
